@@ -19,6 +19,7 @@ int vsim_peek_dtls_flight_done(const struct ssl *ssl);
 int vsim_peek_dtls_appdata_exch(const struct ssl *ssl);
 int vsim_peek_session_id(const struct ssl *ssl, unsigned char *out, int max);
 int vsim_peek_master_secret_digest(const struct ssl *ssl, unsigned long long *out);
+int vsim_peek_ems(const struct ssl *ssl);
 int vsim_load_tls13_psk(struct sslKeys *keys, const unsigned char *key, int keyLen, const unsigned char *id, int idLen,
     int maxEarly, int cipherId);
 int vsim_sid_info(const struct sslSessionId *sid, int *idLen, int *ticketLen, int *hasPsk, unsigned int *cipherId);
